@@ -122,6 +122,8 @@ pub fn run(index: usize, b: &Behaviour, perturb: bool) -> Outcome {
   let mut wire: Vec<u8> = Vec::new();
   let mut last_inbound_at: u64 = 0;
   let mut ping_at: Option<u64> = None;
+  // the first PING that nothing has answered yet (reset by any inbound frame)
+  let mut first_unanswered: Option<u64> = None;
   let mut owed: Vec<Vec<u8>> = Vec::new();
   let mut queued: Vec<Vec<u8>> = Vec::new();
   let mut salt = index;
@@ -155,8 +157,19 @@ pub fn run(index: usize, b: &Behaviour, perturb: bool) -> Outcome {
             issues.push(Issue { class: "prop".into(), code: "ping-too-early".into(), step: si + 1, detail: format!("PING at t={} only {} unit(s) after the last inbound frame (HEARTBEAT_IVL = {})", clock, idle, b.ivl) });
           }
           ping_at = Some(clock);
+          if first_unanswered.is_none() {
+            first_unanswered = Some(clock);
+          }
         } else if !b.v2 && !before_wait && !closed && clock - last_inbound_at >= b.ivl {
           issues.push(Issue { class: "prop".into(), code: "ping-missing".into(), step: si + 1, detail: format!("tick at t={}: idle for {} >= HEARTBEAT_IVL {} and no PING outstanding, yet no PING was sent", clock, clock - last_inbound_at, b.ivl) });
+        }
+        // DeadDetected on the real engine: the deadline belongs to the first unanswered PING and
+        // is not pushed back by anything the engine itself sends
+        if let (Some(p0), true, Some(dl)) = (first_unanswered, ep.eng.is_waiting_for_pong(), ep.eng.get_pong_deadline()) {
+          let dl_units = dl.saturating_duration_since(base).as_millis() as u64 / UNIT_MS;
+          if dl_units > p0 + b.timeout {
+            issues.push(Issue { class: "prop".into(), code: "dead-peer-deadline-postponed".into(), step: si + 1, detail: format!("a PING sent at t={} is unanswered and nothing has arrived since; HEARTBEAT_TIMEOUT = {} but the connection's deadline now stands at t={}", p0, b.timeout, dl_units) });
+          }
         }
         if closed {
           closed_model = true;
@@ -197,6 +210,7 @@ pub fn run(index: usize, b: &Behaviour, perturb: bool) -> Outcome {
           issues.push(Issue { class: "drift".into(), code: "activity-not-recorded".into(), step: si + 1, detail: format!("inbound {} frame did not update the activity time", kind) });
         }
         last_inbound_at = clock;
+        first_unanswered = None;
         if ep.eng.phase == ZmtpPhase::Closed {
           issues.push(Issue { class: "prop".into(), code: "live-peer-killed".into(), step: si + 1, detail: format!("an inbound {} frame closed the connection", kind) });
         }
